@@ -164,7 +164,7 @@ def view_of(cp):
 
 
 def bounds(tier):
-    return {"alphabet": "all 1,114,112 code points, partitioned into atoms", "atoms": G.get("atom_sizes"), "extractors": len(T.EXTRACTORS), "partB_depth": DEPTH[tier], "partB_alphabet": len(A13), "sublist_pool": 10, "sublist_alphabet": len(SUB_ALPHA)}
+    return {"alphabet": "all 1,114,112 code points, partitioned into atoms", "atoms": G.get("atom_sizes"), "extractors": len(T.EXTRACTORS), "partB_depth": DEPTH[tier], "partB_alphabet": len(A13), "sublist_pool": 10, "sublist_alphabet": len(SUB_ALPHA), "block_boundaries": BLOCK_SIZES}
 
 
 def explore_extractor(e, max_witness=400):
@@ -295,6 +295,34 @@ def check_extractor(i):
     return viol, herr, info
 
 
+BLOCK_SIZES = [1024, 4096, 8192, 16384, 32768, 65536, 131072, 262144]
+BLOCK_CITES = ["410 U.S. 113", "Id. at 5", "Foo, supra, at 3", "2 F. Supp. 2d 3", "see § 5", "1 Minn. L. Rev. 1", "Mass. Gen. Laws ch. 1, § 2"]
+
+
+def check_blocks(B):
+    """Long texts (size-dependent code paths, e.g. block-wise scanning): each citation placed so that it starts
+    at every offset B-24 .. B+2 around a power-of-two boundary; every extractor whose pattern matches the text
+    must be selected by the real filter."""
+    tk = G["tk"]
+    res = []
+    n = 0
+    word = "lorem ipsum dolor sit amet consectetur "
+    for cite in BLOCK_CITES:
+        sel0 = [e for e in tk.get_extractors(" " + cite + " ") if e.compiled_regex.search(" " + cite + " ")]
+        for k in range(-2, 25):
+            pre_len = B - k
+            pre = (word * (pre_len // len(word) + 1))[: pre_len - 1] + " "
+            text = pre + cite + " " + word * 3
+            n += 1
+            selected = tk.get_extractors(text)
+            ids = {id(x) for x in selected}
+            for e in sel0:
+                if id(e) not in ids and e.compiled_regex.search(text, max(0, pre_len - 2)):
+                    res.append(("filter-loses-match", f"extractor {e.regex[:50]!r} matches {cite!r} placed at offset {pre_len} of a {len(text)}-character text but the filter skips it", {"part": "blocks", "B": B, "cite": cite, "k": k}))
+                    break
+    return res, n
+
+
 def stream(tokens):
     return [ser_token(t) for t in tokens]
 
@@ -345,6 +373,9 @@ def replay(case):
         return [{"msg": f"{lab}: {det}", "label": lab} for lab, det, c in viol if c["word"] == case["word"]] or [
             {"msg": f"{lab}: {det}", "label": lab} for lab, det, c in viol
         ]
+    if case["part"] == "blocks":
+        res, _ = check_blocks(case["B"])
+        return [{"msg": f"{lab}: {det}", "label": lab} for lab, det, c in res if (c["cite"], c["k"]) == (case["cite"], case["k"])]
     if case["part"] == "B":
         res, _ = check_doc(case["text"], G["tk"], G["ref"], "full list")
     else:
@@ -365,6 +396,8 @@ def shards(tier, seed):
         out.append({"part": "S", "r": r, "n": 32})
     for r in range(32):
         out.append({"part": "BS", "r": r, "n": 32})
+    for bi in range(len(BLOCK_SIZES)):
+        out.append({"part": "blocks", "bi": bi})
     out.append({"part": "meta"})
     return out
 
@@ -422,6 +455,18 @@ def run_shard(sh):
             st.outcomes.add(h64([nt, [r[0] for r in res]]))
             for lab, det in res:
                 st.violation({"part": "B", "text": text}, f"{lab}: {det} :: text={text!r}", label=f"B-{lab}")
+        return st
+    if sh["part"] == "blocks":
+        B = BLOCK_SIZES[sh["bi"]]
+        res, n = check_blocks(B)
+        st.evaluations += n
+        st.traces += n
+        st.transitions += n
+        p["evaluations"] += n
+        st.states.add(h64(["blocks", B]))
+        st.nontrivial.add(h64(["blocks", B]))
+        for lab, det, case in res:
+            st.violation(case, f"{lab}: {det}", label="blocks-" + lab)
         return st
     if sh["part"] == "BS":
         # every reporter/journal/law string of the database in the two minimal forms, full extractor list
